@@ -277,9 +277,19 @@ func dataOpt(r *cq.RNG, small bool) framefmt.Opt {
 }
 
 func pipeCase(s *cases.Set, p lorawan.PHYPayload, v lorawan.MACVersion, k keys, prm params, kind, keyPrefix string) []byte {
+	return pipeCaseB(s, p, nil, v, k, prm, kind, keyPrefix)
+}
+
+// pipeCaseB: believed (optional) is the frame the caller believes it is sending (built from its original payload
+// objects); the case's term is printed from it while the methods run on p.
+func pipeCaseB(s *cases.Set, p lorawan.PHYPayload, believed *lorawan.PHYPayload, v lorawan.MACVersion, k keys, prm params, kind, keyPrefix string) []byte {
 	step()
 	orig := clone(p)
 	t := framefmt.Phy(p, 0)
+	if believed != nil {
+		orig = clone(*believed)
+		t = framefmt.Phy(*believed, 0)
+	}
 	full := uint32(0)
 	if m, ok := p.MACPayload.(*lorawan.MACPayload); ok {
 		full = m.FHDR.FCnt
@@ -340,6 +350,64 @@ func forgedExchange(s *cases.Set, r *cq.RNG, up bool, v lorawan.MACVersion, want
 	bs := pipeCase(s, p, v, k, prm, "forged-mic-"+name, "forged:")
 	if bs != nil { // the matching validation as a tamper case too (carried MIC = specification MIC = the special value)
 		tamperCase(s, bs, v, up, k, prm, m.FHDR.FCnt, "forged-mic-"+name, "none:forged-"+name)
+	}
+}
+
+// fanOut: one message fanned out / retransmitted: the caller keeps its []Payload slices (FRMPayload message and
+// FOpts commands) and puts them into three frames (FCnt + 1, other DevAddr, other session keys) that go through
+// the exchange in turn. Each exchange is an ordinary case printed from the caller's original objects; afterwards
+// the slices must still hold them.
+func fanOut(s *cases.Set, r *cq.RNG, v lorawan.MACVersion, i int) {
+	mts := []lorawan.MType{lorawan.UnconfirmedDataDown, lorawan.UnconfirmedDataUp, lorawan.ConfirmedDataDown, lorawan.ConfirmedDataUp}
+	mt := mts[i%4]
+	frm := make([]lorawan.Payload, 1, 1+i%3)
+	frm[0] = &lorawan.DataPayload{Bytes: r.Bytes(1 + r.Intn(40))}
+	fo := framefmt.ValidCmds(r, isUp(mt), 1+r.Intn(10))
+	origFrm := append([]lorawan.Payload(nil), frm...)
+	origFo := append([]lorawan.Payload(nil), fo...)
+	snap := func(l []lorawan.Payload) (out [][]byte) {
+		for _, e := range l {
+			b, _ := e.MarshalBinary()
+			out = append(out, append([]byte{}, b...))
+		}
+		return
+	}
+	bFrm, bFo := snap(frm), snap(fo)
+	base := framefmt.DataFrame(r, framefmt.Opt{MType: mt, Port: 1 + r.Intn(200), FCntHigh: i%2 == 0})
+	for pass := 0; pass < 3; pass++ {
+		build := func(f, o []lorawan.Payload) lorawan.PHYPayload {
+			m := *base.MACPayload.(*lorawan.MACPayload)
+			m.FHDR.FCnt += uint32(pass)
+			if pass == 2 {
+				m.FHDR.DevAddr[i%4] ^= 0x42
+			}
+			m.FRMPayload, m.FHDR.FOpts = f, o
+			q := base
+			q.MACPayload = &m
+			return q
+		}
+		believed := build(append([]lorawan.Payload(nil), origFrm...), append([]lorawan.Payload(nil), origFo...))
+		k := newKeys(r, v)
+		prm := params{counter(r), r.Byte(), r.Byte()}
+		pipeCaseB(s, build(frm, fo), &believed, v, k, prm, "fan-out", fmt.Sprintf("fanout%d:", pass+1))
+		same := func(l, o []lorawan.Payload, bs [][]byte) bool {
+			if len(l) != len(o) {
+				return false
+			}
+			for j := range o {
+				b, _ := l[j].MarshalBinary()
+				if l[j] != o[j] || string(b) != string(bs[j]) {
+					return false
+				}
+			}
+			return true
+		}
+		if !same(frm, origFrm, bFrm) || !same(fo, origFo, bFo) {
+			s.Fail(cases.GoFail{Key: fmt.Sprintf("caller-slice-modified:fanout%d:%s", pass+1, framefmt.Phy(believed, 0)), What: "the sender sequence wrote into the caller's []Payload slices (FRMPayload / FOpts): the next frame built from them carries ciphertext as plaintext",
+				Replay: map[string]interface{}{"frame": framefmt.Phy(believed, 0), "macVersion": ver(v), "keys": k.hex()}})
+			copy(frm, origFrm)
+			copy(fo, origFo)
+		}
 	}
 }
 
@@ -406,7 +474,7 @@ func main() {
 	r := cq.NewRNG(seed)
 	nr = cq.NewRNG(seed ^ 0x9e3779b97f4a7c15)
 	s := cases.New("C05", dir, "LW.Corr.C05",
-		"RFC 4493 examples first; corpus: FPort 0 with empty FRMPayload (C05-1), a frame whose MHDR RFU bit is flipped (C05-2). Pipeline: data frames with MAC commands in FOpts (0..15 bytes) and application payload (block-boundary lengths), commands on port 0, FOpts only, empty payloads, raw bytes; 4 MTypes, both MAC versions, FCnt above 2^16 in 70%, random keys (1.0: one network key; in a third of the sessions SNwkSIntKey = FNwkSIntKey, all network keys equal, all-zero keys or zero integrity keys), ConfFCnt/txDR/txCh random; the bytes the implementation sends are also given to the model's receiver (a specification-conformant peer must recover the content). Special MIC values: exchanges of application frames CONSTRUCTED (internal/micforge) so that the MIC of the serialised frame is 00000000, ffffffff, 00000001 (both directions, both versions). History: unrelated library calls (internal/noise) before every compared call; direction families run back to back (one frame content exchanged as downlink, uplink, confirmed downlink, confirmed uplink, uplink, downlink); every pipeline call is repeated twice later in the process (reverse and same order) and must give its first result. Tampering: for a subset of frames EVERY single-bit flip of the serialised frame (the receiver extends the 16 bits on the wire with its own upper 16 bits), and every single-parameter mismatch: each key with one bit flipped, FCnt +/- 2^16, ConfFCnt + 1 and + 2^16, txDR, txCh, validation with the other direction's function, the other MAC version. Every case distinct by construction.")
+		"RFC 4493 examples first; corpus: FPort 0 with empty FRMPayload (C05-1), a frame whose MHDR RFU bit is flipped (C05-2). Pipeline: data frames with MAC commands in FOpts (0..15 bytes) and application payload (block-boundary lengths), commands on port 0, FOpts only, empty payloads, raw bytes; 4 MTypes, both MAC versions, FCnt above 2^16 in 70%, random keys (1.0: one network key; in a third of the sessions SNwkSIntKey = FNwkSIntKey, all network keys equal, all-zero keys or zero integrity keys), ConfFCnt/txDR/txCh random; the bytes the implementation sends are also given to the model's receiver (a specification-conformant peer must recover the content). Special MIC values: exchanges of application frames CONSTRUCTED (internal/micforge) so that the MIC of the serialised frame is 00000000, ffffffff, 00000001 (both directions, both versions). Fan-out: one FRMPayload slice and one FOpts slice kept by the caller and put into three frames (FCnt + 1, other DevAddr, other keys) exchanged in turn, printed from the original objects, slices unchanged afterwards; every exchange is also repeated from 8 goroutines at once. History: unrelated library calls (internal/noise) before every compared call; direction families run back to back (one frame content exchanged as downlink, uplink, confirmed downlink, confirmed uplink, uplink, downlink); every pipeline call is repeated twice later in the process (reverse and same order) and must give its first result. Tampering: for a subset of frames EVERY single-bit flip of the serialised frame (the receiver extends the 16 bits on the wire with its own upper 16 bits), and every single-parameter mismatch: each key with one bit flipped, FCnt +/- 2^16, ConfFCnt + 1 and + 2^16, txDR, txCh, validation with the other direction's function, the other MAC version. Every case distinct by construction.")
 	s.ShardSize = 200
 	nPipe, nFlipFrames := 160, 24
 	if thorough {
@@ -493,6 +561,9 @@ func main() {
 		if i%4 == 3 {
 			dirFamily(s, r, v, i/4)
 		}
+		if i%4 == 1 {
+			fanOut(s, r, v, i/4)
+		}
 		if i < nFlipFrames {
 			// every single-bit flip
 			for pos := 0; pos < len(b)*8; pos++ {
@@ -534,6 +605,7 @@ func main() {
 		}
 	}
 	s.ReplayRemembered(nr.Intn, 2, func() { noise.Step(nr) })
+	s.ReplayConcurrently(8, 2, 60*time.Second)
 	if err := s.Finish(); err != nil {
 		fmt.Fprintln(os.Stderr, err)
 		os.Exit(2)
